@@ -125,6 +125,26 @@ PAYLOADS = [
 ]
 
 
+def _boundary_payloads():
+    """payloads whose base64 text sits exactly ON a threshold of find_base64's filters (seed C02-h: `>` turned into `>=` in the
+    slash-ratio filter): 3 '/' per 32 characters exactly, exactly 7 distinct characters, the minimal 24 characters."""
+    out = []
+    for base in (b"run 10.20.30.40", b"ping 10.20.30.40 now and wait!", b"mail admin@corp-mail.example.org the loot ..."):
+        a, k0 = len(base) // 3, base64.b64encode(base).count(b"/")
+        if len(base) % 3 == 0 and (3 * a - 8 * k0) % 5 == 0 and 3 * a - 8 * k0 > 0:
+            p = base + b"???" * ((3 * a - 8 * k0) // 5)
+            e = base64.b64encode(p)
+            if e.count(b"/") * 32 == 3 * len(e):
+                out.append(p)
+    out.append(b"http://evil.io/?????????")
+    out.append(base64.b64decode(b"ABCD12+AABCD12+AABCD12+A"))      # exactly 7 distinct characters, 24 characters
+    out.append(b"hi 10.20.30.40 bye")                                # exactly 24 characters of base64
+    return [p for p in out if _b64_ok(p)]
+
+
+PAYLOADS += _boundary_payloads()
+
+
 def build(payload, layers, pre=b"", suf=b""):
     """layers outermost first.  Returns (input, plaintexts) or None if some layer's domain is violated.
     plaintexts[i] = expected value of the node for layers[i]."""
